@@ -101,6 +101,10 @@ pub enum Event {
     UnlockBegin(Key),
     CancelBegin(Key),
     BeforeCallback(bool),
+    /// Harness-side ground truth (no hook involved): the client is about to drop this guard ...
+    DropBegin(Gid),
+    /// ... and the drop has returned: the guard no longer exists.
+    GuardGone(Gid),
 }
 
 /// Result of waiting for an agent.
